@@ -1,4 +1,72 @@
-From Emitter Require Import Lib.Base Model.Key.
-Theorem C03_placeholder : AllowRead = 2.
-Proof. reflexivity. Qed.
-Print Assumptions C03_placeholder.
+(* C03 - Channel keys authorize exactly what they were issued for.
+   Models: Model/Key.v (security/key.go, contract.Validate, broker.Service.Authorize), Model/Channel.v,
+   Model/Murmur.v; spec: Spec/KeyAuth.v; tied to the code by the c03 harness (real broker.Service
+   under each licence version) on every run.  The string hash [h] is a parameter; the only facts
+   used are h("") = 1325880984 (true of murmur by computation) and, per statement, that it does
+   not collide at the key's target string. *)
+From Emitter Require Import Lib.Base Model.MsgCodec Model.Murmur Model.Channel Model.Cipher Model.Key Spec.KeyAuth
+     Proofs.KeyProofs.
+
+(* an operation is permitted iff: the channel parsed, the key is not banned, it decrypts, it has
+   not expired, its contract is on file with the same id / signature / master id and is allowed,
+   it carries the permission the operation needs, and its target validates the channel *)
+Theorem C03_authorize_iff : forall h banned decrypt contracts now ch perm k,
+  authorize h banned decrypt contracts now ch perm = Some k
+  <-> (c_type ch <> ChannelInvalid /\ banned (c_key ch) = false /\ decrypt (c_key ch) = Ok k
+       /\ is_expired k now = false
+       /\ exists c, contracts (key_contract k) = Some c /\ contract_validate c k = true
+                    /\ has_permission k perm = true /\ validate_channel h k ch = true).
+Proof. exact authorize_iff. Qed.
+Print Assumptions C03_authorize_iff.
+
+(* a key of one contract is never accepted for another *)
+Theorem C03_no_cross_contract : forall h banned decrypt contracts now ch perm k,
+  authorize h banned decrypt contracts now ch perm = Some k ->
+  exists c, contracts (key_contract k) = Some c
+            /\ ct_id c = key_contract k /\ ct_signature c = key_signature k /\ ct_master c = key_master k
+            /\ ct_allowed c = true.
+Proof. exact no_cross_contract. Qed.
+Print Assumptions C03_no_cross_contract.
+
+(* no over-permission, for EVERY target (up to 23 levels of literals and '+', exact or '#/'):
+   whenever the key validates a request, the target covers it - equal levels at literals (a '+'
+   in the request is refused there), any level at '+', same depth if exact, at least that depth
+   if '#/' *)
+Theorem C03_no_overpermission : forall h, h [] = 1325880984 ->
+  forall tparts wild rp,
+  Forall tpart_ok tparts -> len tparts <= 23 -> Forall level_ok rp -> rp <> [] ->
+  (forall s, h s = h (join_with sep tparts) -> s = join_with sep tparts) ->
+  let '(path, target) := target_of h tparts wild in
+  validate_parts h path target rp (h (hd [] rp)) = true ->
+  (if wild then len tparts <= len rp else len tparts = len rp) /\ levels_cover tparts rp = true.
+Proof. exact validate_sound. Qed.
+Print Assumptions C03_no_overpermission.
+
+(* PARTIAL converse: every covered request is validated, for targets whose last level is a literal
+   (and for the bare "#/").  For targets with a trailing '+' level the full statement is false of
+   the code (known finding F2, Findings/C03.v): they validate nothing. *)
+Theorem C03_covered_is_permitted_partial : forall h, h [] = 1325880984 ->
+  forall tparts wild rp,
+  Forall tpart_ok tparts -> len tparts <= 23 ->
+  (tparts = [] /\ wild = true \/ tparts <> [] /\ lit (last tparts []) = true) ->
+  (if wild then len tparts <= len rp else len tparts = len rp) -> levels_cover tparts rp = true ->
+  let '(path, target) := target_of h tparts wild in
+  validate_parts h path target rp (h (hd [] rp)) = true.
+Proof. exact validate_complete_partial. Qed.
+Print Assumptions C03_covered_is_permitted_partial.
+
+(* the hypothesis on the hash constant holds for the hash the code uses *)
+Theorem C03_murmur_empty : murmur [] = 1325880984.
+Proof. vm_compute. reflexivity. Qed.
+Print Assumptions C03_murmur_empty.
+
+Example C03_nonvacuous :
+  let a := [97] in let b := [98] in
+  Forall tpart_ok [a; plus; b] /\ Forall level_ok [a; b; b]
+  /\ (let '(p, t) := target_of murmur [a; plus; b] true in validate_parts murmur p t [a; [120]; b; a] (murmur a) = true)
+  /\ (let '(p, t) := target_of murmur [a; plus; b] false in validate_parts murmur p t [a; [120]; b; a] (murmur a) = false).
+Proof.
+  cbv zeta. split; [|split; [|split; vm_compute; reflexivity]].
+  - repeat constructor; try discriminate; cbn; intuition discriminate.
+  - repeat constructor; try discriminate; cbn; intuition discriminate.
+Qed.
